@@ -279,6 +279,9 @@ RulesLoop:
 	}
 	// Reset Skip counter at the end of each phase. Skip actions work only within the current processing phase
 	tx.Skip = 0
+	// Same for a pending skipAfter whose marker was not found in this phase (missing, or placed before the
+	// rule that jumped): it must not suppress the rules of the next phases.
+	tx.SkipAfter = ""
 
 	tx.stopWatches[phase] = time.Now().UnixNano() - ts
 	verifhook.Event(verifhook.PhaseEnd, tx, int(phase), 0)
